@@ -21,6 +21,10 @@
 //     reflectively as a whole: Rd of every field (copystructure.Copy, json, fmt); copystructure.Copy additionally
 //     takes the pseudo lock COPY (what is mutated afterwards is the private copy); reflect.Value.Set*, SetMapIndex and
 //     pointerstructure.Set write the pseudo field "payload-graph".
+//   * blocking waits that are not mutex operations -> User "wait:<what>": sync.WaitGroup.Wait, sync.Cond.Wait, a channel receive
+//     or send outside a select, ranging over a channel, a select without default (one wait for the whole statement).  The
+//     contracts let a wait "acquire" the registry locks (it may depend on another goroutine that needs them), so a wait must not
+//     happen while Broker.lock or a graph's threshold lock is held.
 //   * go statements -> Go; immediately invoked literals -> Block; literals passed as arguments -> Loop (Block ..) after
 //     the call (run by the callee zero or more times, synchronously); other literals become functions of their own.
 //   * if / switch / select -> Alt (all case guards first); for / range -> Loop; break / continue -> Brk n.
@@ -72,6 +76,8 @@ type tr struct {
 	effectStart int
 	// locals of the enclosing declared function that hold the value of a reference-typed tracked field
 	alias map[types.Object]string
+	// translating the communication of a select arm: the wait is accounted for once, by the select itself
+	inComm bool
 }
 
 type output struct {
@@ -421,6 +427,14 @@ func (t *tr) expr(e ast.Node, out *[]string) {
 			if fl, ok := t.aliasOf(v); ok {
 				t.rd(v, fl, out, false)
 			}
+		case *ast.UnaryExpr:
+			if v.Op == token.ARROW {
+				t.expr(v.X, out)
+				if !t.inComm {
+					*out = append(*out, actp(`User "wait:chan-recv"`))
+				}
+				return false
+			}
 		case *ast.KeyValueExpr:
 			// composite literal: the key is a field name of a fresh object, only the value is evaluated
 			if _, isIdent := v.Key.(*ast.Ident); isIdent {
@@ -550,6 +564,9 @@ func (t *tr) call(c *ast.CallExpr, out *[]string) {
 						external = true
 						if strings.HasSuffix(deref(recv).String(), "reflect.Value") && reflectMutators[f.Sel.Name] {
 							t.wr(c, "payload-graph", out)
+						}
+						if rs := deref(recv).String(); f.Sel.Name == "Wait" && (rs == "sync.WaitGroup" || rs == "sync.Cond") {
+							*out = append(*out, actp(fmt.Sprintf("User %q", "wait:"+strings.TrimPrefix(rs, "sync.")+".Wait")))
 						}
 					}
 				}
@@ -701,6 +718,9 @@ func (t *tr) stmtL(s ast.Stmt, label string) string {
 	case *ast.SendStmt:
 		t.expr(v.Chan, &a)
 		t.expr(v.Value, &a)
+		if !t.inComm {
+			a = append(a, actp(`User "wait:chan-send"`))
+		}
 	case *ast.DeferStmt:
 		if isVerifPoint(v.Call) {
 			return "PSkip"
@@ -791,6 +811,11 @@ func (t *tr) stmtL(s ast.Stmt, label string) string {
 		}
 	case *ast.RangeStmt:
 		t.expr(v.X, &a)
+		if ty := t.info.TypeOf(v.X); ty != nil {
+			if _, isChan := types.Unalias(ty).Underlying().(*types.Chan); isChan {
+				a = append(a, actp(`User "wait:chan-recv"`))
+			}
+		}
 		t.regions = append(t.regions, region{label: label, brk: true, cnt: true})
 		var b []string
 		// range with field targets (for x.f = range ...) does not occur; keys/values are locals
@@ -809,6 +834,15 @@ func (t *tr) stmtL(s ast.Stmt, label string) string {
 		}
 		a = append(a, t.stmt(v.Assign), t.cases(v.Body, label))
 	case *ast.SelectStmt:
+		blocking := true
+		for _, c := range v.Body.List {
+			if cc, ok := c.(*ast.CommClause); ok && cc.Comm == nil {
+				blocking = false // a default arm: the select never waits
+			}
+		}
+		if blocking {
+			a = append(a, actp(`User "wait:select"`))
+		}
 		a = append(a, t.cases(v.Body, label))
 	case *ast.BranchStmt:
 		lbl := ""
@@ -866,7 +900,10 @@ func (t *tr) cases(b *ast.BlockStmt, label string) string {
 			}
 			var body []string
 			if cc.Comm != nil {
+				saved := t.inComm
+				t.inComm = true
 				body = append(body, t.stmt(cc.Comm))
+				t.inComm = saved
 			}
 			for _, s := range cc.Body {
 				body = append(body, t.stmt(s))
